@@ -107,16 +107,16 @@ func c11Guard(kind c11Kind) {
 	vpCover("reached")
 }
 
-func H_C11_guard_leaf()         { c11Guard(c11Kinds[0]) }
-func H_C11_guard_container()    { c11Guard(c11Kinds[1]) }
-func H_C11_guard_list()         { c11Guard(c11Kinds[2]) }
-func H_C11_guard_leaflist()     { c11Guard(c11Kinds[3]) }
-func H_C11_guard_choice()       { c11Guard(c11Kinds[4]) }
-func H_C11_guard_case()         { c11Guard(c11Kinds[5]) }
-func H_C11_guard_uses()         { c11Guard(c11Kinds[6]) }
-func H_C11_guard_augment()      { c11Guard(c11Kinds[7]) }
-func H_C11_guard_refine()       { c11Guard(c11Kinds[8]) }
-func H_C11_guard_anydata()      { c11Guard(c11Kinds[9]) }
+func H_C11_guard_leaf()      { c11Guard(c11Kinds[0]) }
+func H_C11_guard_container() { c11Guard(c11Kinds[1]) }
+func H_C11_guard_list()      { c11Guard(c11Kinds[2]) }
+func H_C11_guard_leaflist()  { c11Guard(c11Kinds[3]) }
+func H_C11_guard_choice()    { c11Guard(c11Kinds[4]) }
+func H_C11_guard_case()      { c11Guard(c11Kinds[5]) }
+func H_C11_guard_uses()      { c11Guard(c11Kinds[6]) }
+func H_C11_guard_augment()   { c11Guard(c11Kinds[7]) }
+func H_C11_guard_refine()    { c11Guard(c11Kinds[8]) }
+func H_C11_guard_anydata()   { c11Guard(c11Kinds[9]) }
 
 // a malformed expression is an error under every feature configuration (also all-on / default options)
 func H_C11_guard_malformed() {
